@@ -160,7 +160,8 @@ Print Assumptions timestamp_scaling_exact.
    unicode.IsLetter / unicode.IsDigit on runes outside ASCII are universally quantified (uletter, udigit). *)
 
 (* A label list written in the Loki text syntax -- names [a-zA-Z_][a-zA-Z0-9_]*, every value between double quotes with each
-   byte written in any of the forms raw ASCII / raw well-formed UTF-8 sequence / \a \b \f \n \r \t \v \\ and the escaped quote / \xHH (so ANY byte
+   byte written in any of the forms raw ASCII / raw well-formed UTF-8 sequence / \a \b \f \n \r \t \v \\ and the escaped quote / \xHH / \ooo /
+   \uXXXX of a rune below 65536 (so ANY byte
    string can be a value), pairs separated by a comma and any white space -- is read back as exactly that list, appended to
    the labels already in the buffer, whatever text follows the closing brace. No label is dropped, split or merged. *)
 Theorem label_string_roundtrip :
@@ -256,6 +257,22 @@ Print Assumptions entries_element_read.
 
 (* ---------------------------------------------------------------- Datadog log tags (tagPattern, model/DatadogJson.v) *)
 
+(* a Datadog log document written by a client -- an array of objects with ddtags written k:v,k:v, optional ddsource / service /
+   hostname / source_type, a message, an unknown member and an integer timestamp -- is walked into exactly the logs it was written
+   from, and is answered with one faithful row per log *)
+Theorem decode_faithful_datadog_logs_document :
+  forall (uletter : string -> bool) fp enc_len CS cache_add cache0 threshold flush_limit ctx_ttl (ws : list wlog),
+  Forall (fun w => forallb tag_ok (wl_tags w) = true) ws ->
+  let logs := map wlog_ddlog ws in
+  dd_document uletter dd_int_of (JArr (map wlog_doc ws)) = Some logs /\
+  exists cs, decode fp enc_len CS cache_add cache0 threshold flush_limit ctx_ttl (BDDLog logs) = Done cs /\
+             Forall chunk_rect cs /\ rows_of cs = rows_spec fp ctx_ttl (entries_ddlog logs).
+Proof.
+  intros. split; [now apply dd_document_written_l|].
+  exact (decode_faithful_all fp enc_len CS cache_add cache0 threshold flush_limit ctx_ttl (BDDLog logs)).
+Qed.
+Print Assumptions decode_faithful_datadog_logs_document.
+
 (* tags written k1:v1,k2:v2,... -- every key a letter followed by letters, digits and _ - . \ / ; every value a non-empty run of
    those and colons -- are found as exactly that list: none is dropped, merged with its neighbour or cut at a colon of its value *)
 Theorem datadog_tags_read_back :
@@ -290,7 +307,7 @@ Proof. vm_compute. repeat split. Qed.
 
 (* a written label list with every escape form, a multi-byte rune, a byte that is not UTF-8 and an empty value *)
 Example label_string_hypotheses_met :
-  let ls := [("app", [QByte "a"%char; QSimple "n"%char; QHex 255%N; QRune "é"; QSimple """"%char; QByte "}"%char]); ("__name__", []); ("x_9", [QRune "名"; QHex 0%N])]%string in
+  let ls := [("app", [QByte "a"%char; QSimple "n"%char; QHex 255%N; QRune "é"; QSimple """"%char; QByte "}"%char; QOct 200%N; QU4 8203%N]); ("__name__", []); ("x_9", [QRune "名"; QHex 0%N; QOct 0%N; QU4 233%N])]%string in
   forallb pair_ok ls = true /\ all_bytes is_ws (String (Ascii.ascii_of_N 32) (String (Ascii.ascii_of_N 10) EmptyString)) = true /\
   wstream_ok (ls, [LE 1 (Some "x"%string) None]) = true /\
   parse_labels (fun _ => false) (fun _ => false) (print_labels " " ls ++ " trailing")%string [("pre", "1")]%string
@@ -334,3 +351,11 @@ Example datadog_tags_hypotheses_met :
   forallb tag_ok ts = true /\ print_tags ts = "env:prod,app.kubernetes.io/name:pod-7f9c,k:host:8080,a-b.c:::"%string /\
   dd_tags (fun _ => false) "bad,9env:prod, x:1,k:v w,_k:v"%string = [("env", "prod"); ("x", "1"); ("k", "v")]%string.
 Proof. vm_compute. repeat split. Qed.
+
+Example datadog_document_hypotheses_met :
+  let ws := [WL [("env", "prod"); ("k", "host:8080")]%string (Some "nginx"%string) None (Some ""%string) None "GET / 200"%string 1700000000123 0%N;
+             WL [] None (Some "web"%string) None (Some "kubernetes"%string) ""%string 1700000000456 0%N] in
+  Forall (fun w => forallb tag_ok (wl_tags w) = true) ws /\
+  dd_document (fun _ => false) dd_int_of (JArr (map wlog_doc ws)) = Some (map wlog_ddlog ws) /\
+  map (fun l => List.length (ddlog_labels l)) (map wlog_ddlog ws) = [4; 3]%nat.
+Proof. split; [repeat constructor|split; vm_compute; reflexivity]. Qed.
